@@ -29,4 +29,9 @@ def from_message(message):
         '#VALUE!': VALUE,
         '#GETTING_DATA': DATA
     }
-    return errdict.get(str(message), ERROR)
+    try:
+        message = str(message)
+    except Exception:
+        # an exception whose __str__ raises is still just an unknown error
+        return ERROR
+    return errdict.get(message, ERROR)
